@@ -1,7 +1,7 @@
 -------------------------- MODULE RequestReplyTrace --------------------------
 (* Trace validation for C18: real PubSubBackend + CommandBus + CommandProcessor on
    a GoChannel with one reply topic shared by all concurrent requests.
-     reset    ackerrors                               AckCommandErrors setting
+     reset    ackerrors swallow                       AckCommandErrors setting; a ReplyPublishErrorHandler that returns nil is configured
      sent     c                                       caller c sent its command (SendWithReplies returned)
      handled  c n ok                                  the command handler processed c's command (n-th delivery), ok = no error
      replypub c n                                     the reply for that delivery was published
@@ -13,13 +13,13 @@
      chanclosed c | finished c                        reply channel seen closed | OnListenForReplyFinished ran
      quiesce                                                                                               *)
 EXTENDS Naturals, Sequences, FiniteSets, TraceBase
-VARIABLES ackErrors, handled, published, fin, closed, endedSet, sent, nochan
-tvars == <<ackErrors, handled, published, fin, closed, endedSet, sent, nochan, l>>
-TInit == ackErrors = FALSE /\ handled = << >> /\ published = {} /\ fin = << >> /\ closed = {} /\ endedSet = {} /\ sent = {} /\ nochan = {} /\ LInit
+VARIABLES ackErrors, swallow, handled, published, fin, closed, endedSet, sent, nochan
+tvars == <<ackErrors, swallow, handled, published, fin, closed, endedSet, sent, nochan, l>>
+TInit == ackErrors = FALSE /\ swallow = FALSE /\ handled = << >> /\ published = {} /\ fin = << >> /\ closed = {} /\ endedSet = {} /\ sent = {} /\ nochan = {} /\ LInit
 Upd(f, k, v) == (k :> v) @@ f
 Cnt(c) == IF c \in DOMAIN fin THEN fin[c] ELSE 0
-K == UNCHANGED <<ackErrors, nochan>>
-TReset == Is("reset") /\ ackErrors' = Ev.ackerrors /\ handled' = << >> /\ published' = {} /\ fin' = << >> /\ closed' = {}
+K == UNCHANGED <<ackErrors, swallow, nochan>>
+TReset == Is("reset") /\ ackErrors' = Ev.ackerrors /\ swallow' = Ev.swallow /\ handled' = << >> /\ published' = {} /\ fin' = << >> /\ closed' = {}
           /\ endedSet' = {} /\ sent' = {} /\ nochan' = {} /\ Adv
 TSent == Is("sent") /\ sent' = sent \cup {Ev.c} /\ UNCHANGED <<handled, published, fin, closed, endedSet>> /\ K /\ Adv
 THandled == Is("handled") /\ handled' = Upd(handled, <<Ev.c, Ev.n>>, Ev.ok)
@@ -28,7 +28,9 @@ TReplyPub == Is("replypub") /\ <<Ev.c, Ev.n>> \in DOMAIN handled /\ published' =
              /\ UNCHANGED <<handled, fin, closed, endedSet, sent>> /\ K /\ Adv
 \* the command is acked / nacked as AckCommandErrors says, and only after the reply was published
 TCmdRet == /\ Is("cmdret") /\ <<Ev.c, Ev.n>> \in DOMAIN handled
-           /\ Ev.ok = (<<Ev.c, Ev.n>> \in published /\ (handled[<<Ev.c, Ev.n>>] \/ ackErrors))   \* a failed reply publish always means Nack
+           \* a failed reply publish means Nack -- unless a ReplyPublishErrorHandler swallowed it (swallow): then, as after a
+           \* successful publish, the handler's outcome and AckCommandErrors decide
+           /\ Ev.ok = ((<<Ev.c, Ev.n>> \in published \/ swallow) /\ (handled[<<Ev.c, Ev.n>>] \/ ackErrors))
            /\ UNCHANGED <<handled, published, fin, closed, endedSet, sent>> /\ K /\ Adv
 \* only replies produced for its own command, with the handler's outcome
 TReply == /\ Is("reply") /\ Ev.from = Ev.c /\ Ev.c \notin closed
@@ -41,7 +43,7 @@ TTimeoutReply == Is("timeoutreply") /\ Ev.c \in endedSet /\ Ev.c \notin closed
 \* nochan: the caller used SendWithReply and never holds the reply channel itself
 TEnded == /\ Is("ended") /\ endedSet' = endedSet \cup {Ev.c}
           /\ nochan' = IF Ev.nochan THEN nochan \cup {Ev.c} ELSE nochan
-          /\ UNCHANGED <<handled, published, fin, closed, sent, ackErrors>> /\ Adv
+          /\ UNCHANGED <<handled, published, fin, closed, sent, ackErrors, swallow>> /\ Adv
 TChClosed == Is("chanclosed") /\ Ev.c \in endedSet /\ closed' = closed \cup {Ev.c}
              /\ UNCHANGED <<handled, published, fin, endedSet, sent>> /\ K /\ Adv
 TFinished == Is("finished") /\ Ev.c \in endedSet /\ Cnt(Ev.c) = 0 /\ fin' = Upd(fin, Ev.c, 1)     \* exactly once, only after the end
